@@ -83,6 +83,17 @@ std::vector<Obj> dataset() {
     return d;
 }
 
+
+// the same data set with three objects that are larger than the (hooked) parser buffers, each the FIRST object of its PBF block
+// (write_pbf puts two objects into a block): nested buffers start with an object that does not fit the initial buffer
+std::vector<Obj> dataset_big() {
+    std::vector<Obj> d = dataset();
+    d[0].tags.push_back({"note", std::string(600, 'x')});                       // n10: first object of the file
+    for (int k = 0; k < 90; ++k) d[6].refs.push_back(10 * (1 + k % 4));          // w21: first object of the 4th block
+    for (int k = 0; k < 40; ++k) d[10].members.emplace_back('n', 10 * (1 + k % 4), "m" + std::to_string(k));   // r9: last block
+    return d;
+}
+
 std::string iso(uint32_t t) { return osmium::Timestamp{t}.to_iso(); }
 
 std::string to_opl(const std::vector<Obj>& d) {
